@@ -324,6 +324,14 @@ def _observe(case, model, pg, tag, UF, gsel=None):
     if ploidy == 2:
         routes["ndarray-default-ploidy"] = (model.lsl(Z.copy()), model.usl(Z.copy()))
     routes["numpy(phased.afreq)"] = (model.lsl_numpy(pg.afreq(), pg.ploidy), model.usl_numpy(pg.afreq(), pg.ploidy))
+    # where the known rounding class can be SEEN (a frequency one rounding step below 1 at a locus that is
+    # fixed for allele 1) it is required to be seen before a failure is attributed to it
+    def seen(af):
+        af = af.tolist()
+        return any(counts[j] == denom and 0.999999999999 < af[j] < 1.0 for j in range(p))
+    prone = obs["hit"]
+    obs["hit"] = {"phased": prone and seen(pg.afreq()), "unphased": prone and seen(gm.afreq()), "ndarray": prone,
+                  "unphased.select_taxa": prone and gsel is not None and tuple(gsel.mat.shape) == (n, p) and seen(gsel.afreq())}
     routes["numpy(unphased.afreq)"] = (model.lsl_numpy(gm.afreq(dtype="float64"), ploidy, False),
                                        model.usl_numpy(gm.afreq(dtype="float64"), ploidy, False))
     pex = numpy.array([counts[j] / denom for j in range(p)], dtype="float64").reshape(p)
@@ -454,7 +462,10 @@ def _exec(case):
         instance holds when the limits are computed from exactly divided counts"""
         if route == "numpy(exact p)":
             return False
-        return any(pops[g]["hit"] for g in involved) and holds_exact
+        fam = ("unphased.select_taxa" if route == "unphased.select_taxa" else "ndarray" if route.startswith("ndarray")
+               else "unphased" if "unphased" in route else "phased")
+        return holds_exact and any(pops[g]["hit"][fam] or (fam == "unphased.select_taxa" and pops[g]["hit"]["unphased"])
+                                   for g in involved)
 
     for g, ob in enumerate(pops):
         if ob["shape_bad"]:
